@@ -68,8 +68,10 @@ bool targets_iterator_t::cache_targets(tensor_size_t max_bytes)
                 });
             cached = true;
         }
-        catch (...) // NOLINT(bugprone-empty-catch)
+        catch (...)
         {
+            // NB: a partially allocated or filled cache must not be mistaken for a complete one!
+            m_targets = tensor4d_t{};
         } // LCOV_EXCL_LINE
     }
 
@@ -138,8 +140,10 @@ bool flatten_iterator_t::cache_flatten(tensor_size_t max_bytes)
                 });
             cached = true;
         }
-        catch (...) // NOLINT(bugprone-empty-catch)
+        catch (...)
         {
+            // NB: a partially allocated or filled cache must not be mistaken for a complete one!
+            m_flatten = tensor2d_t{};
         } // LCOV_EXCL_LINE
     }
 
